@@ -184,12 +184,18 @@ func genExtDesc(r *Rng, kind int) string {
 		}
 		return fmt.Sprintf("psk|%d|%d|%d|%s|%s", fake, r.Intn(2), sess, joinList(ids), joinList(bs))
 	default:
+		// "regenerated at the same sizes": the encapsulated key takes every KEM's size (X25519 32, P-256 65,
+		// P-384 97, P-521 133) and lengths around them, not just the 32 bytes init() would draw by itself;
+		// the payload takes lengths around the AEAD tag and the usual padded sizes
 		return fmt.Sprintf("ech|%d|%d|%d|%s|%s", Pick(r, []int{1, 2, 3, 1, 4}), Pick(r, []int{1, 2, 3, 1, 7}), r.Intn(256),
-			hx(r.Bytes(Pick(r, []int{32, 32, 0, 1, 65, 133}))), hx(r.Bytes(Pick(r, []int{144, 176, 208, 240, 0, 5, 15, 16, 17, 32}))))
+			hx(r.Bytes(Pick(r, c08EchEncLens))), hx(r.Bytes(Pick(r, c08EchPayloadLens))))
 	}
 }
 
 const nExtKinds = 29
+
+var c08EchEncLens = []int{32, 0, 1, 16, 31, 33, 65, 97, 133, 300, 32, 64}
+var c08EchPayloadLens = []int{144, 176, 208, 240, 0, 5, 15, 16, 17, 32, 33, 145, 272, 1000}
 
 func classifyErr(err error) string {
 	switch {
